@@ -11,8 +11,16 @@ from mininec.mininec import Mininec, Wire, Excitation, Angle, ideal_ground
 def solve(spec):
     m = Mininec(spec['f'], [Wire(*w) for w in spec['wires']], media=[ideal_ground] if spec['ground'] else None)
     m.register_source(Excitation(complex(*spec['v'])), spec['feed'])
+    if spec.get('feed2'):
+        # a second fed element (voltage chosen freely: one of the feeds may absorb power)
+        m.register_source(Excitation(complex(*spec['feed2'][1:])), spec['feed2'][0], 2)
     m.compute()
     return m
+
+
+def net_power(m):
+    """the net input power, from the source voltages and the solved currents (not the program's own total)"""
+    return sum(0.5 * (s.voltage * np.conj(m.current[s.idx])).real for s in m.sources)
 
 
 def tables(m, zen, azi, **kw):
@@ -45,7 +53,7 @@ def radiation_integral(m, zen, azi):
                     if m.media is not None:
                         pi_ = p.point * np.array([1, 1, -1])
                         N += mom * np.array([-1, -1, 1]) * np.exp(1j * k * rh.dot(pi_))
-            c = (376.730313 * k / (4 * np.pi)) ** 2 / (59.96 * m.power)
+            c = (376.730313 * k / (4 * np.pi)) ** 2 / (59.96 * net_power(m))
             tv, thh = c * abs(eth.dot(N)) ** 2, c * abs(eph.dot(N)) ** 2
             for j, t in enumerate((tv, thh, tv + thh)):
                 out[iz, ia, j] = 10 * np.log10(t) if t > 1e-30 else -999
@@ -55,6 +63,8 @@ def radiation_integral(m, zen, azi):
 def check(spec, rng):
     viol = []
     m = solve(spec)
+    if net_power(m) <= 1e-9 * sum(abs(s.voltage * m.current[s.idx]) for s in m.sources):
+        raise ValueError('no net input power (the second feed absorbs what the first delivers): no gain is defined')
     zen, azi = (spec['z0'], spec['dz'], 5), (spec['a0'], spec['da'], 4)
     Pff, r = spec['pwr'], spec['dist']
     db, vm, gain, et, ep = tables(m, zen, azi, pwr=Pff, dist=r)
@@ -150,7 +160,10 @@ def gen(rng):
             d2 /= np.linalg.norm(d2)
             c = b + d2 * n2 * seg
             ws.append((n2,) + tuple(b) + tuple(c) + (0.001,))
-    spec = {'wires': [tuple(float(x) if k else int(x) for k, x in enumerate(w)) for w in ws], 'ground': ground, 'f': f,
+    feed2 = None
+    if len(ws) > 1 and rng.random() < 0.6:
+        feed2 = (rng.randint(0, ws[1][0] - 2), rng.uniform(-1.5, 1.5), rng.uniform(-1, 1))
+    spec = {'wires': [tuple(float(x) if k else int(x) for k, x in enumerate(w)) for w in ws], 'ground': ground, 'f': f, 'feed2': feed2,
             'v': (rng.uniform(0.5, 2), rng.uniform(-1, 1)), 'feed': rng.randint(0, ws[0][0] - 2),
             'z0': rng.choice([0, 5, 10]), 'dz': rng.choice([10, 17, 20]), 'a0': rng.choice([0, 30, 200]),
             'da': rng.choice([45, 90, 67]), 'pwr': rng.choice([1.0, 100.0, 400.0]), 'dist': rng.choice([1.0, 1000.0, 50.0])}
